@@ -73,6 +73,11 @@ func options(kind string, out *strings.Builder) []risor.Option {
 		opts = append(opts, risor.WithGlobals(map[string]any{"ga": 1, "gb": "two", "gc": []int{3}}))
 	case "deny":
 		opts = append(opts, risor.WithoutGlobals("exec", "os.exit", "math.abs", "strings.repeat"))
+	case "badglobals":
+		// two globals that risor cannot represent: which one the error names is the host's input, not map order
+		opts = append(opts, risor.WithGlobals(map[string]any{"ga": make(chan int), "gb": complex(1, 2), "gc": 3}))
+	case "badnested":
+		opts = append(opts, risor.WithGlobals(map[string]any{"ga": 1, "gm": map[string]any{"x": make(chan int), "y": complex(1, 2), "z": struct{ A chan int }{}}}))
 	case "mounts", "mounts3":
 		// a host OS assembled from nested mounts, each an in-memory file system that knows its own name, plus an
 		// environment and users: which mount serves a path, and in which order anything is listed, is the host's
@@ -318,6 +323,8 @@ func corpus(thorough bool) []caseT {
 		add(fmt.Sprintf("mounts%d", i), src, "mounts")
 		add(fmt.Sprintf("mounts3-%d", i), src, "mounts3")
 	}
+	add("badglobals", "1", "badglobals")
+	add("badnested", "1", "badnested")
 	for i, src := range containerPrograms(thorough) {
 		add(fmt.Sprintf("container%d", i), src, "default")
 	}
@@ -393,6 +400,14 @@ func Check(r *ev.Run, replay string) {
 			r.Eval(1)
 			r.Outcome("base|" + ev.Clip(base, 120))
 			sites := rn.sites
+			// the base order once more: an outcome that differs without any deviation depends on something the seam
+			// does not own (reflect's MapKeys, an address, the clock) - every comparison below would blame a map range
+			vseam.Choose = (&runner{}).choose
+			if again, _ := outcome(c); again != base {
+				r.Report("C05:differs-without-deviation", fmt.Sprintf("%s\n  two evaluations with every map range in its base order differ:\n  %s", c.Src, firstDiffLine(base, again)), replayIn{Case: c}, ev.Clip(again, 400), ev.Clip(base, 400))
+				continue
+			}
+			r.Eval(1)
 			if ci%53 == 0 {
 				r.Sample(map[string]any{"program": c.Src, "options": c.Opts, "dynamic_map_range_sites": len(sites)})
 			}
